@@ -75,3 +75,66 @@ def check_day_carry(run, fx):
     run.check(all(o == ("+", True, True) for o in ops), rule, "earlier/later", "%d branches: day + carry" % len(ops),
               "the branches balance the date with %s; expected `day + <shifted time>.0` in both (a carry that is subtracted moves "
               "the result by two days when the shift crosses midnight)" % [o[0] for o in ops], f.loc)
+
+
+COMPONENTS = {"hour", "minute", "second", "fraction", "nanosecond", "millisecond", "microsecond"}
+
+
+def _let_defs(f):
+    defs = {}
+    for x in hir_walk(f.hir):
+        if isinstance(x, dict) and x.get("k") == "let" and isinstance(x.get("pat"), dict) and x["pat"].get("k") == "bind" \
+                and x.get("init") is not None:
+            defs.setdefault(x["pat"]["name"], x["init"])
+    return defs
+
+
+def _components(node, defs, depth=0, seen=None):
+    """names of offset-record components an expression is computed from (through let-bound locals)"""
+    seen = seen if seen is not None else set()
+    out = set()
+    for x in hir_walk(node):
+        if not isinstance(x, dict):
+            continue
+        if x.get("k") == "field" and x.get("name") in COMPONENTS:
+            out.add(x["name"])
+        elif x.get("k") == "path" and isinstance(x.get("res"), dict) and x["res"].get("local") in defs and depth < 4:
+            nm = x["res"]["local"]
+            if nm not in seen:
+                seen.add(nm)
+                out |= _components(defs[nm], defs, depth + 1, seen)
+    return out
+
+
+def check_offset_sign(run, fx):
+    rule = "R6.offset-sign-covers-all-components"
+    run.rule(rule, "wherever a parsed UTC-offset record is turned into a signed quantity, the sign multiplies a sum built from "
+                   "every component of the record that enters the arithmetic of that function (hours, minutes, seconds, "
+                   "fraction): a component added outside the product keeps a positive sign in negative offsets")
+    n = 0
+    for f in fx["temporal_rs"].fns:
+        if f.hir is None or f.kind == "Closure":
+            continue
+        defs = _let_defs(f)
+        for x in hir_walk(f.hir):
+            if not (isinstance(x, dict) and x.get("k") == "bin" and x.get("op") == "*"):
+                continue
+            for side in ("a", "b"):
+                names = {y.get("name") for y in hir_walk(x[side]) if isinstance(y, dict) and y.get("k") == "field"}
+                if "sign" not in names:
+                    continue
+                inside = _components(x["b" if side == "a" else "a"], defs)
+                # every component that takes part in some + - * of the function
+                arith = set()
+                for y in hir_walk(f.hir):
+                    if isinstance(y, dict) and y.get("k") == "bin" and y.get("op") in ("+", "-", "*"):
+                        arith |= _components(y, defs)
+                n += 1
+                key = f.path.replace("temporal_rs::builtins::core::", "").replace("temporal_rs::", "")
+                run.check(inside >= arith and inside, rule, key, "sign x (%s)" % ", ".join(sorted(inside)),
+                          "%s: the sign multiplies only (%s) but (%s) enter the offset arithmetic: %s stay(s) unsigned" %
+                          (f.name, ", ".join(sorted(inside)), ", ".join(sorted(arith)), ", ".join(sorted(arith - inside))),
+                          "%s:%s" % (f.file, x.get("l") or f.line))
+    run.analysed["offset_sign_sites"] = n
+    if n < 3:
+        run.anchor_missing(rule, "sites", "only %d offset sign products found (expected >= 3)" % n)
